@@ -1,4 +1,399 @@
+(* Properties/C05.v — "Shifts move bits by exactly s places; rotations permute
+   the BITS-bit pattern."  Statements about Model/Shift.v; proofs in
+   Proofs/Shift.v (on top of Proofs/BitAddr.v).
+   Notation in comments: X = uval w x, SX = sval w x, M = Mod w n = 2^BITS,
+   BITS = bits w n = w * n.  All theorems hold for every digit width w > 0
+   and every digit count n >= 1 (BITS need not be a power of two unless said). *)
 From Bnum Require Import Base Prim.
-Theorem C05_placeholder : forall w n ds, 0 <= w -> wf w n ds -> 0 <= uval w ds < Mod w n.
-Proof. exact uval_bounds. Qed.
-Print Assumptions C05_placeholder.
+From Bnum.Model Require Import Core Shift.
+From Bnum.Proofs Require Import BitAddr Shift.
+
+(* ---------- 0. the addressing lemma the bit-level reading rests on ---------- *)
+
+Theorem C05_bit_addressing : forall w n ds i, 0 < w -> wf w n ds -> 0 <= i ->
+  Z.testbit (uval w ds) i = Z.testbit (nth (Z.to_nat (i / w)) ds 0) (i mod w).
+Proof. exact testbit_uval_wf. Qed.
+Print Assumptions C05_bit_addressing.
+
+(* ---------- 1. shl: bits move up by exactly s, the top s fall off ---------- *)
+
+Theorem C05_shl_internal : forall w n x s, 0 < w -> wf w n x -> 0 <= s < bits w n ->
+  wf w n (shl_internal w x s) /\
+  uval w (shl_internal w x s) = (uval w x * 2 ^ s) mod Mod w n.
+Proof. exact shl_internal_ok. Qed.
+Print Assumptions C05_shl_internal.
+
+(* ---------- 2. shr: logical (zero fill) and arithmetic (sign fill) ---------- *)
+
+Theorem C05_shr_internal : forall w n x s, 0 < w -> wf w n x -> 0 <= s < bits w n ->
+  wf w n (shr_pad_internal w false x s) /\
+  uval w (shr_pad_internal w false x s) = uval w x / 2 ^ s.
+Proof. exact shr_internal_ok. Qed.
+Print Assumptions C05_shr_internal.
+
+(* both paddings as unsigned values: ones-padding adds the s top bits *)
+Theorem C05_shr_pad_value : forall w n x s neg, 0 < w -> wf w n x -> 0 <= s < bits w n ->
+  wf w n (shr_pad_internal w neg x s) /\
+  uval w (shr_pad_internal w neg x s)
+    = uval w x / 2 ^ s + (if neg then Mod w n - 2 ^ (bits w n - s) else 0).
+Proof. exact shr_pad_internal_val. Qed.
+Print Assumptions C05_shr_pad_value.
+
+Theorem C05_shr_pad_negative : forall w n x s, 0 < w -> wf w n x -> 0 <= s < bits w n ->
+  is_negative w x = true ->
+  wf w n (shr_pad_internal w true x s) /\
+  sval w (shr_pad_internal w true x s) = sval w x / 2 ^ s.
+Proof. exact shr_pad_true_negative. Qed.
+Print Assumptions C05_shr_pad_negative.
+
+(* as BInt calls it: floor division by 2^s for both signs *)
+Theorem C05_sar_internal : forall w n x s, 0 < w -> wf w n x -> 0 <= s < bits w n ->
+  wf w n (shr_pad_internal w (is_negative w x) x s) /\
+  sval w (shr_pad_internal w (is_negative w x) x s) = sval w x / 2 ^ s.
+Proof. exact sar_internal_ok. Qed.
+Print Assumptions C05_sar_internal.
+
+Theorem C05_is_negative : forall w n x, 0 < w -> (0 < n)%nat -> wf w n x ->
+  is_negative w x = (sval w x <? 0).
+Proof. exact is_negative_sval. Qed.
+Print Assumptions C05_is_negative.
+
+(* a left shift read as signed wraps in two's complement *)
+Theorem C05_shl_signed : forall w n x s r, 0 < w -> (0 < n)%nat -> wf w n x -> 0 <= s ->
+  (wf w n r /\ uval w r = (uval w x * 2 ^ s) mod Mod w n) ->
+  sval w r = wrapS (Mod w n) (sval w x * 2 ^ s).
+Proof. exact shl_post_signed. Qed.
+Print Assumptions C05_shl_signed.
+
+(* ---------- 3. checked ---------- *)
+
+Theorem C05_U_checked_shl : forall w n x s, 0 < w -> wf w n x -> 0 <= s ->
+  (U_checked_shl w x s = None <-> bits w n <= s) /\
+  (s < bits w n -> exists r, U_checked_shl w x s = Some r /\
+     wf w n r /\ uval w r = (uval w x * 2 ^ s) mod Mod w n).
+Proof. exact U_checked_shl_ok. Qed.
+Print Assumptions C05_U_checked_shl.
+
+Theorem C05_U_checked_shr : forall w n x s, 0 < w -> wf w n x -> 0 <= s ->
+  (U_checked_shr w x s = None <-> bits w n <= s) /\
+  (s < bits w n -> exists r, U_checked_shr w x s = Some r /\
+     wf w n r /\ uval w r = uval w x / 2 ^ s).
+Proof. exact U_checked_shr_ok. Qed.
+Print Assumptions C05_U_checked_shr.
+
+Theorem C05_I_checked_shl : forall w n x s, 0 < w -> wf w n x -> 0 <= s ->
+  (I_checked_shl w x s = None <-> bits w n <= s) /\
+  (s < bits w n -> exists r, I_checked_shl w x s = Some r /\
+     wf w n r /\ uval w r = (uval w x * 2 ^ s) mod Mod w n).
+Proof. exact I_checked_shl_ok. Qed.
+Print Assumptions C05_I_checked_shl.
+
+Theorem C05_I_checked_shr : forall w n x s, 0 < w -> wf w n x -> 0 <= s ->
+  (I_checked_shr w x s = None <-> bits w n <= s) /\
+  (s < bits w n -> exists r, I_checked_shr w x s = Some r /\
+     wf w n r /\ sval w r = sval w x / 2 ^ s).
+Proof. exact I_checked_shr_ok. Qed.
+Print Assumptions C05_I_checked_shr.
+
+(* ---------- 3. overflowing: flag; value in range; value when BITS = 2^k ---------- *)
+
+Theorem C05_U_overflowing_shl : forall w n x s, 0 < w -> (0 < n)%nat -> wf w n x -> 0 <= s ->
+  snd (U_overflowing_shl w x s) = (bits w n <=? s) /\
+  (s < bits w n ->
+     wf w n (fst (U_overflowing_shl w x s)) /\
+     uval w (fst (U_overflowing_shl w x s)) = (uval w x * 2 ^ s) mod Mod w n) /\
+  ((exists k, 0 <= k /\ bits w n = 2 ^ k) ->
+     fst (U_overflowing_shl w x s) = shl_internal w x (s mod bits w n) /\
+     wf w n (fst (U_overflowing_shl w x s)) /\
+     uval w (fst (U_overflowing_shl w x s)) = (uval w x * 2 ^ (s mod bits w n)) mod Mod w n).
+Proof. exact U_overflowing_shl_ok. Qed.
+Print Assumptions C05_U_overflowing_shl.
+
+Theorem C05_U_overflowing_shr : forall w n x s, 0 < w -> (0 < n)%nat -> wf w n x -> 0 <= s ->
+  snd (U_overflowing_shr w x s) = (bits w n <=? s) /\
+  (s < bits w n ->
+     wf w n (fst (U_overflowing_shr w x s)) /\
+     uval w (fst (U_overflowing_shr w x s)) = uval w x / 2 ^ s) /\
+  ((exists k, 0 <= k /\ bits w n = 2 ^ k) ->
+     fst (U_overflowing_shr w x s) = shr_pad_internal w false x (s mod bits w n) /\
+     wf w n (fst (U_overflowing_shr w x s)) /\
+     uval w (fst (U_overflowing_shr w x s)) = uval w x / 2 ^ (s mod bits w n)).
+Proof. exact U_overflowing_shr_ok. Qed.
+Print Assumptions C05_U_overflowing_shr.
+
+Theorem C05_I_overflowing_shl : forall w n x s, 0 < w -> (0 < n)%nat -> wf w n x -> 0 <= s ->
+  snd (I_overflowing_shl w x s) = (bits w n <=? s) /\
+  (s < bits w n ->
+     wf w n (fst (I_overflowing_shl w x s)) /\
+     uval w (fst (I_overflowing_shl w x s)) = (uval w x * 2 ^ s) mod Mod w n) /\
+  ((exists k, 0 <= k /\ bits w n = 2 ^ k) ->
+     fst (I_overflowing_shl w x s) = shl_internal w x (s mod bits w n) /\
+     wf w n (fst (I_overflowing_shl w x s)) /\
+     uval w (fst (I_overflowing_shl w x s)) = (uval w x * 2 ^ (s mod bits w n)) mod Mod w n).
+Proof. exact U_overflowing_shl_ok. Qed.
+Print Assumptions C05_I_overflowing_shl.
+
+Theorem C05_I_overflowing_shr : forall w n x s, 0 < w -> (0 < n)%nat -> wf w n x -> 0 <= s ->
+  snd (I_overflowing_shr w x s) = (bits w n <=? s) /\
+  (s < bits w n ->
+     wf w n (fst (I_overflowing_shr w x s)) /\
+     sval w (fst (I_overflowing_shr w x s)) = sval w x / 2 ^ s) /\
+  ((exists k, 0 <= k /\ bits w n = 2 ^ k) ->
+     fst (I_overflowing_shr w x s) = shr_pad_internal w (is_negative w x) x (s mod bits w n) /\
+     wf w n (fst (I_overflowing_shr w x s)) /\
+     sval w (fst (I_overflowing_shr w x s)) = sval w x / 2 ^ (s mod bits w n)).
+Proof. exact I_overflowing_shr_ok. Qed.
+Print Assumptions C05_I_overflowing_shr.
+
+(* ---------- 3. unbounded: defined for every amount ---------- *)
+
+Theorem C05_U_unbounded_shl : forall w n x s, 0 < w -> wf w n x -> 0 <= s ->
+  (bits w n <= s -> U_unbounded_shl w x s = ZERO n) /\
+  wf w n (U_unbounded_shl w x s) /\
+  uval w (U_unbounded_shl w x s) = (uval w x * 2 ^ s) mod Mod w n.
+Proof. exact U_unbounded_shl_ok. Qed.
+Print Assumptions C05_U_unbounded_shl.
+
+Theorem C05_U_unbounded_shr : forall w n x s, 0 < w -> wf w n x -> 0 <= s ->
+  (bits w n <= s -> U_unbounded_shr w x s = ZERO n) /\
+  wf w n (U_unbounded_shr w x s) /\
+  uval w (U_unbounded_shr w x s) = uval w x / 2 ^ s.
+Proof. exact U_unbounded_shr_ok. Qed.
+Print Assumptions C05_U_unbounded_shr.
+
+Theorem C05_I_unbounded_shl : forall w n x s, 0 < w -> wf w n x -> 0 <= s ->
+  (bits w n <= s -> I_unbounded_shl w x s = ZERO n) /\
+  wf w n (I_unbounded_shl w x s) /\
+  uval w (I_unbounded_shl w x s) = (uval w x * 2 ^ s) mod Mod w n.
+Proof. exact U_unbounded_shl_ok. Qed.
+Print Assumptions C05_I_unbounded_shl.
+
+Theorem C05_I_unbounded_shr : forall w n x s, 0 < w -> (0 < n)%nat -> wf w n x -> 0 <= s ->
+  (wf w n (I_unbounded_shr w x s) /\ sval w (I_unbounded_shr w x s) = sval w x / 2 ^ s) /\
+  (bits w n <= s ->
+     I_unbounded_shr w x s = (if sval w x <? 0 then NEG_ONE w n else ZERO n) /\
+     sval w (I_unbounded_shr w x s) = if sval w x <? 0 then -1 else 0).
+Proof. exact I_unbounded_shr_ok. Qed.
+Print Assumptions C05_I_unbounded_shr.
+
+(* ---------- 3. inherent shl/shr (debug-checked) and strict ---------- *)
+
+Theorem C05_U_shl : forall dbg w n x s, 0 < w -> wf w n x -> 0 <= s ->
+  (U_shl dbg w x s = Panic <-> dbg = true /\ bits w n <= s) /\
+  (s < bits w n -> exists r, U_shl dbg w x s = Ret r /\
+     wf w n r /\ uval w r = (uval w x * 2 ^ s) mod Mod w n) /\
+  (dbg = false -> U_shl dbg w x s = Ret (U_wrapping_shl w x s)).
+Proof. exact U_shl_ok. Qed.
+Print Assumptions C05_U_shl.
+
+Theorem C05_U_shr : forall dbg w n x s, 0 < w -> wf w n x -> 0 <= s ->
+  (U_shr dbg w x s = Panic <-> dbg = true /\ bits w n <= s) /\
+  (s < bits w n -> exists r, U_shr dbg w x s = Ret r /\
+     wf w n r /\ uval w r = uval w x / 2 ^ s) /\
+  (dbg = false -> U_shr dbg w x s = Ret (U_wrapping_shr w x s)).
+Proof. exact U_shr_ok. Qed.
+Print Assumptions C05_U_shr.
+
+Theorem C05_I_shl : forall dbg w n x s, 0 < w -> wf w n x -> 0 <= s ->
+  (I_shl dbg w x s = Panic <-> dbg = true /\ bits w n <= s) /\
+  (s < bits w n -> exists r, I_shl dbg w x s = Ret r /\
+     wf w n r /\ uval w r = (uval w x * 2 ^ s) mod Mod w n) /\
+  (dbg = false -> I_shl dbg w x s = Ret (I_wrapping_shl w x s)).
+Proof. exact I_shl_ok. Qed.
+Print Assumptions C05_I_shl.
+
+Theorem C05_I_shr : forall dbg w n x s, 0 < w -> wf w n x -> 0 <= s ->
+  (I_shr dbg w x s = Panic <-> dbg = true /\ bits w n <= s) /\
+  (s < bits w n -> exists r, I_shr dbg w x s = Ret r /\
+     wf w n r /\ sval w r = sval w x / 2 ^ s) /\
+  (dbg = false -> I_shr dbg w x s = Ret (I_wrapping_shr w x s)).
+Proof. exact I_shr_ok. Qed.
+Print Assumptions C05_I_shr.
+
+Theorem C05_strict : forall w x s,
+  U_strict_shl w x s = U_shl true w x s /\ U_strict_shr w x s = U_shr true w x s /\
+  I_strict_shl w x s = I_shl true w x s /\ I_strict_shr w x s = I_shr true w x s.
+Proof. exact strict_is_dbg. Qed.
+Print Assumptions C05_strict.
+
+(* ---------- 4. wrapping: the coded `rhs & (BITS-1)` is `rhs mod BITS` iff-side: BITS = 2^k ---------- *)
+
+Theorem C05_mask_amount : forall w n s, 0 < w -> (0 < n)%nat -> (exists k, bits w n = 2 ^ k) ->
+  0 <= s < 2 ^ 32 -> mask_amount w n s = s mod bits w n.
+Proof. exact mask_amount_ok. Qed.
+Print Assumptions C05_mask_amount.
+
+Theorem C05_U_wrapping_shl : forall w n x s, 0 < w -> (0 < n)%nat -> wf w n x -> 0 <= s ->
+  (s < bits w n ->
+     wf w n (U_wrapping_shl w x s) /\
+     uval w (U_wrapping_shl w x s) = (uval w x * 2 ^ s) mod Mod w n) /\
+  ((exists k, bits w n = 2 ^ k) ->
+     U_wrapping_shl w x s = shl_internal w x (s mod bits w n) /\
+     wf w n (U_wrapping_shl w x s) /\
+     uval w (U_wrapping_shl w x s) = (uval w x * 2 ^ (s mod bits w n)) mod Mod w n).
+Proof. exact U_wrapping_shl_ok. Qed.
+Print Assumptions C05_U_wrapping_shl.
+
+Theorem C05_U_wrapping_shr : forall w n x s, 0 < w -> (0 < n)%nat -> wf w n x -> 0 <= s ->
+  (s < bits w n ->
+     wf w n (U_wrapping_shr w x s) /\ uval w (U_wrapping_shr w x s) = uval w x / 2 ^ s) /\
+  ((exists k, bits w n = 2 ^ k) ->
+     U_wrapping_shr w x s = shr_pad_internal w false x (s mod bits w n) /\
+     wf w n (U_wrapping_shr w x s) /\
+     uval w (U_wrapping_shr w x s) = uval w x / 2 ^ (s mod bits w n)).
+Proof. exact U_wrapping_shr_ok. Qed.
+Print Assumptions C05_U_wrapping_shr.
+
+Theorem C05_I_wrapping_shl : forall w n x s, 0 < w -> (0 < n)%nat -> wf w n x -> 0 <= s ->
+  (s < bits w n ->
+     wf w n (I_wrapping_shl w x s) /\
+     uval w (I_wrapping_shl w x s) = (uval w x * 2 ^ s) mod Mod w n) /\
+  ((exists k, bits w n = 2 ^ k) ->
+     I_wrapping_shl w x s = shl_internal w x (s mod bits w n) /\
+     wf w n (I_wrapping_shl w x s) /\
+     uval w (I_wrapping_shl w x s) = (uval w x * 2 ^ (s mod bits w n)) mod Mod w n).
+Proof. exact I_wrapping_shl_ok. Qed.
+Print Assumptions C05_I_wrapping_shl.
+
+Theorem C05_I_wrapping_shr : forall w n x s, 0 < w -> (0 < n)%nat -> wf w n x -> 0 <= s ->
+  (s < bits w n ->
+     wf w n (I_wrapping_shr w x s) /\ sval w (I_wrapping_shr w x s) = sval w x / 2 ^ s) /\
+  ((exists k, bits w n = 2 ^ k) ->
+     I_wrapping_shr w x s = shr_pad_internal w (is_negative w x) x (s mod bits w n) /\
+     wf w n (I_wrapping_shr w x s) /\
+     sval w (I_wrapping_shr w x s) = sval w x / 2 ^ (s mod bits w n)).
+Proof. exact I_wrapping_shr_ok. Qed.
+Print Assumptions C05_I_wrapping_shr.
+
+Theorem C05_overflowing_pow2 : forall w n x s, 0 < w -> (0 < n)%nat -> wf w n x -> 0 <= s ->
+  (exists k, bits w n = 2 ^ k) ->
+  U_overflowing_shl w x s = (shl_internal w x (s mod bits w n), bits w n <=? s) /\
+  U_overflowing_shr w x s = (shr_pad_internal w false x (s mod bits w n), bits w n <=? s) /\
+  I_overflowing_shl w x s = (shl_internal w x (s mod bits w n), bits w n <=? s) /\
+  I_overflowing_shr w x s = (shr_pad_internal w (is_negative w x) x (s mod bits w n), bits w n <=? s).
+Proof. exact overflowing_pow2. Qed.
+Print Assumptions C05_overflowing_pow2.
+
+(* ---------- 5. rotations: every n (BITS need not be a power of two) ---------- *)
+
+Theorem C05_unchecked_rotate_left : forall w n x r, 0 < w -> (0 < n)%nat -> wf w n x ->
+  0 <= r <= bits w n ->
+  wf w n (unchecked_rotate_left w x r) /\
+  uval w (unchecked_rotate_left w x r)
+    = (uval w x * 2 ^ r) mod 2 ^ bits w n + uval w x / 2 ^ (bits w n - r).
+Proof. exact unchecked_rotate_left_ok. Qed.
+Print Assumptions C05_unchecked_rotate_left.
+
+Theorem C05_rotate_left : forall w n x k, 0 < w -> (0 < n)%nat -> wf w n x -> 0 <= k ->
+  wf w n (rotate_left w x k) /\
+  uval w (rotate_left w x k)
+    = (uval w x * 2 ^ (k mod bits w n)) mod Mod w n
+      + uval w x / 2 ^ (bits w n - k mod bits w n).
+Proof. exact rotate_left_ok. Qed.
+Print Assumptions C05_rotate_left.
+
+Theorem C05_rotate_right : forall w n x k, 0 < w -> (0 < n)%nat -> wf w n x -> 0 <= k ->
+  wf w n (rotate_right w x k) /\
+  uval w (rotate_right w x k)
+    = (uval w x * 2 ^ ((bits w n - k mod bits w n) mod bits w n)) mod Mod w n
+      + uval w x / 2 ^ (bits w n - (bits w n - k mod bits w n) mod bits w n) /\
+  uval w (rotate_right w x k)
+    = (uval w x * 2 ^ (bits w n - k mod bits w n)) mod Mod w n
+      + uval w x / 2 ^ (bits w n - (bits w n - k mod bits w n)).
+Proof. exact rotate_right_ok. Qed.
+Print Assumptions C05_rotate_right.
+
+Theorem C05_rotr_rotl : forall w n x k, 0 < w -> (0 < n)%nat -> wf w n x -> 0 <= k ->
+  rotate_right w (rotate_left w x k) k = x.
+Proof. exact rotate_right_left. Qed.
+Print Assumptions C05_rotr_rotl.
+
+Theorem C05_rotl_rotr : forall w n x k, 0 < w -> (0 < n)%nat -> wf w n x -> 0 <= k ->
+  rotate_left w (rotate_right w x k) k = x.
+Proof. exact rotate_left_right. Qed.
+Print Assumptions C05_rotl_rotr.
+
+(* rotations compose additively: they form a cyclic group action on BITS-bit patterns *)
+Theorem C05_rot_compose : forall N X a b, 0 <= a -> 0 <= b -> a + b <= N -> 0 <= X < 2 ^ N ->
+  rotv N (rotv N X a) b = rotv N X (a + b).
+Proof. exact rotv_compose. Qed.
+Print Assumptions C05_rot_compose.
+
+(* ---------- 6. the pinned (pre-fix) rotate_left is refuted ---------- *)
+
+Theorem C05_rotl_refuted :
+  exists w n x k, wf w n x /\
+    uval w (rotate_left_prefix w x k)
+      <> (uval w x * 2 ^ (k mod bits w n)) mod Mod w n + uval w x / 2 ^ (bits w n - k mod bits w n).
+Proof. exact rotl_prefix_refuted. Qed.
+Print Assumptions C05_rotl_refuted.
+
+(* ---------- examples: w = 8, n = 3 (BITS = 24, not a power of two) ---------- *)
+
+Example ex_wf : wf 8 3 [1; 2; 131].
+Proof. apply wfb_wf. vm_compute. reflexivity. Qed.
+
+(* 0x830201 << 12 = 0x201000 mod 2^24 *)
+Example ex_shl : shl_internal 8 [1; 2; 131] 12 = [0; 16; 32]
+  /\ uval 8 [0; 16; 32] = (uval 8 [1; 2; 131] * 2 ^ 12) mod Mod 8 3.
+Proof. vm_compute. split; reflexivity. Qed.
+
+(* 0x830201 >> 12 = 0x830 *)
+Example ex_shr : shr_pad_internal 8 false [1; 2; 131] 12 = [48; 8; 0]
+  /\ uval 8 [48; 8; 0] = uval 8 [1; 2; 131] / 2 ^ 12.
+Proof. vm_compute. split; reflexivity. Qed.
+
+(* the same pattern as a negative i24: arithmetic shift propagates the sign *)
+Example ex_sar : is_negative 8 [1; 2; 131] = true
+  /\ shr_pad_internal 8 true [1; 2; 131] 12 = [48; 248; 255]
+  /\ sval 8 [1; 2; 131] = -8191487
+  /\ sval 8 [48; 248; 255] = -8191487 / 2 ^ 12
+  /\ sval 8 [48; 248; 255] = -2000.
+Proof. vm_compute. repeat split; reflexivity. Qed.
+
+Example ex_checked :
+  U_checked_shl 8 [1; 2; 131] 23 = Some [0; 0; 128] /\
+  U_checked_shl 8 [1; 2; 131] 24 = None /\
+  I_checked_shr 8 [1; 2; 131] 24 = None /\
+  U_overflowing_shr 8 [1; 2; 131] 23 = ([1; 0; 0], false) /\
+  snd (U_overflowing_shl 8 [1; 2; 131] 24) = true.
+Proof. vm_compute. repeat split; reflexivity. Qed.
+
+Example ex_unbounded :
+  U_unbounded_shl 8 [1; 2; 131] 24 = [0; 0; 0] /\
+  U_unbounded_shr 8 [1; 2; 131] 4294967295 = [0; 0; 0] /\
+  I_unbounded_shr 8 [1; 2; 131] 24 = [255; 255; 255] /\
+  I_unbounded_shr 8 [1; 2; 3] 24 = [0; 0; 0].
+Proof. vm_compute. repeat split; reflexivity. Qed.
+
+Example ex_inherent :
+  U_shl true 8 [1; 2; 131] 24 = Panic /\
+  U_shl true 8 [1; 2; 131] 23 = Ret [0; 0; 128] /\
+  I_shr true 8 [1; 2; 131] 24 = Panic /\
+  I_shr false 8 [1; 2; 131] 12 = Ret [48; 248; 255].
+Proof. vm_compute. repeat split; reflexivity. Qed.
+
+(* power-of-two width (w = 8, n = 4, BITS = 32 = 2^5): the mask is the remainder *)
+Example ex_pow2 : (exists k, bits 8 4 = 2 ^ k) /\ mask_amount 8 4 37 = 37 mod 32
+  /\ U_wrapping_shl 8 [1; 2; 3; 4] 37 = shl_internal 8 [1; 2; 3; 4] 5.
+Proof. split; [exists 5; reflexivity|]. vm_compute. split; reflexivity. Qed.
+
+(* BITS = 24: the mask is NOT the remainder (why item 4 needs the hypothesis) *)
+Example ex_not_pow2 : mask_amount 8 3 24 = 16 /\ 24 mod bits 8 3 = 0.
+Proof. vm_compute. split; reflexivity. Qed.
+
+(* rotl(0x030201, 12) = 0x201030 ; rotr undoes it ; amounts are taken mod 24 *)
+Example ex_rot :
+  rotate_left 8 [1; 2; 3] 12 = [48; 16; 32] /\
+  rotate_right 8 [48; 16; 32] 12 = [1; 2; 3] /\
+  rotate_left 8 [1; 2; 3] 24 = [1; 2; 3] /\
+  rotate_left 8 [1; 2; 3] 36 = [48; 16; 32] /\
+  rotate_right 8 [1; 2; 3] 0 = [1; 2; 3] /\
+  rotate_right 8 [1; 2; 3] 8 = [2; 3; 1] /\
+  rotate_left 8 [1; 2; 3] 8 = [3; 1; 2].
+Proof. vm_compute. repeat split; reflexivity. Qed.
+
+(* the refutation witness: pre-fix rotate_left by 8 of 0x030201 returns the input *)
+Example ex_rot_prefix : rotate_left_prefix 8 [1; 2; 3] 8 = [1; 2; 3]
+  /\ rotate_left 8 [1; 2; 3] 8 = [3; 1; 2].
+Proof. vm_compute. split; reflexivity. Qed.
